@@ -267,10 +267,10 @@ def obligations(tier):
         CH('K_exit_code_and_iteration', MOD, 'k_exit', timeout=120, engine='K', regime='traced',
            encodes=['Context.trash_each', 'TrashPutReporter.exit_code', 'TrashAllResult.any_failure'],
            stubs=['SingleTrasher -> symbolic results'], bounds='0..4 arguments, every failure pattern'),
-        CH('W_argument_lists_up_to_3', MOD, 'w_lists', timeout=2400, partitions=[(k, tier == 'thorough') for k in range(NAK)], engine='W', regime='selector',
+        CH('W_argument_lists_up_to_3', MOD, 'w_lists', timeout=6000, partitions=[(k, tier == 'thorough') for k in range(NAK)], engine='W', regime='selector',
            encodes=K.PUT_FUNCS, stubs=K.STUBS, bounds='lists of 1..3 arguments x 15 argument kinds per position (third position: %s) x 9 option sets (two of them with an unbalanced ( or [ in $HOME)' % ('15 kinds' if tier == 'thorough' else '6 kinds: 0 2 4 6 10 12')),
     ]
     if tier == 'thorough':
-        obs.append(CH('W_argument_lists_of_4', MOD, 'w_lists4', timeout=7000, partitions=list(range(NAK)), twin=False, engine='W',
+        obs.append(CH('W_argument_lists_of_4', MOD, 'w_lists4', timeout=14000, partitions=list(range(NAK)), twin=False, engine='W',
                       regime='selector', encodes=K.PUT_FUNCS, stubs=K.STUBS, bounds='lists of 4 arguments: 15 kinds for the first three positions, 6 for the fourth, x 9 option sets (two of them with an unbalanced ( or [ in $HOME)'))
     return obs
